@@ -113,6 +113,7 @@ STATES = {
     'stdin_pty': ['stdin pty'],
     'umask777_sigterm_blocked': ['umask 777', 'sigmask 15', 'sigmask 13'],
     'daemon_uid': ['setresgid 1 1 1', 'setresuid 1 1 1'],
+    'fds_above_1023': ['openfds 1100'],       # every descriptor the library opens gets a number beyond FD_SETSIZE
 }
 
 
